@@ -191,13 +191,31 @@ def digest(obj):
 # --------------------------------------------------------------------------
 # batch runner (in-process pure-Python engines): fork workers, merge in order
 
+class CaseTimeout(BaseException):
+    pass
+
+
+def _alarm(signum, frame):
+    raise CaseTimeout()
+
+
 def _worker_chunk(fn, check, seed, idxs, cfg):
     import faulthandler
     faulthandler.enable()
+    limit = (cfg or {}).get("case_timeout_s", 30) if isinstance(cfg, dict) else 30
+    signal.signal(signal.SIGALRM, _alarm)
     out = []
     for i in idxs:
         try:
-            out.append((i, fn(check, seed, i, cfg)))
+            signal.setitimer(signal.ITIMER_REAL, limit)
+            try:
+                r = fn(check, seed, i, cfg)
+            finally:
+                signal.setitimer(signal.ITIMER_REAL, 0)
+            out.append((i, r))
+        except CaseTimeout:
+            out.append((i, {"harness_error": "case %s:%d:%d exceeded %ss (watchdog)" % (check, seed, i, limit),
+                            "timeout": True}))
         except Exception:
             out.append((i, {"harness_error": traceback.format_exc()}))
     return out
